@@ -786,6 +786,24 @@ def sx_len(x):
     return len(x)
 
 
+def sx_round(x, nd=None):
+    """python's round() (half to even) on a symbolic non-negative real; exact on the dyadic
+    rationals that arise from bit patterns, confirmed by replay on the real code otherwise"""
+    if hasattr(x, "_sx_base") and is_sym(x):
+        x = x._sx_base
+    if not isinstance(x, SxReal):
+        return round(x) if nd is None else round(x, nd)
+    scale = 10 ** (nd or 0)
+    y = x.t * scale
+    n = z3.ToInt(y)
+    frac = y - z3.ToReal(n)
+    half = z3.RealVal("1/2")
+    r = z3.If(frac < half, n, z3.If(frac > half, n + 1, z3.If(n % 2 == 0, n, n + 1)))
+    if nd is None:
+        return SxInt(r)
+    return SxReal(z3.ToReal(r) / scale)
+
+
 # ----------------------------------------------------------------------------- source transformer
 def _lam(body):
     return ast.Lambda(args=ast.arguments(posonlyargs=[], args=[], kwonlyargs=[], kw_defaults=[], defaults=[]), body=body)
@@ -834,7 +852,7 @@ SHIMS = {
     "_sx_boolop": sx_boolop,
     "_sx_join": sx_join,
 }
-TYPE_SHIMS = {"bin": sx_bin, "int": IntShim, "float": FloatShim, "str": StrShim, "ord": sx_ord, "chr": sx_chr}
+TYPE_SHIMS = {"bin": sx_bin, "int": IntShim, "float": FloatShim, "str": StrShim, "ord": sx_ord, "chr": sx_chr, "round": sx_round}
 # modules in which the builtin names int/float/str/bin/ord/chr are shadowed by the shims
 SHIM_MODULES = ("types", "qlassfun", "bqm", "algorithms", "qcircuit.qcircuitwrapper")
 
